@@ -214,16 +214,25 @@ def c10_inventory(tier, rng):
     # be derived from the experiment and from run-level settings, never from the value an earlier experiment stored there
     try:
         cdef = front.find_class("src/dataset_processor.py", "DatasetProcessor")
+        per_experiment_writes = {ast.unparse(n.targets[0]) for m in cdef.body if isinstance(m, ast.FunctionDef) and m.name != "__init__"
+                                 for n in ast.walk(m) if isinstance(n, ast.Assign) and len(n.targets) == 1 and ast.unparse(n.targets[0]).startswith("self.args.")}
         for m in [x for x in cdef.body if isinstance(x, ast.FunctionDef) and x.name != "__init__"]:
             for n in ast.walk(m):
                 if isinstance(n, ast.Assign) and len(n.targets) == 1 and ast.unparse(n.targets[0]).startswith("self.args."):
                     attr = ast.unparse(n.targets[0])
                     obl += 1
                     reads_self = any(isinstance(x, ast.Attribute) and ast.unparse(x) == attr for x in ast.walk(n.value))
+                    sticky = _conditional_on_experiment(m, n, attr, per_experiment_writes)
                     if reads_self:
                         viol.append({"obligation": "C10.frame.args.%s.%s" % (m.name, attr.split(".")[-1]), "inputs": None,
                                      "observed": "%s:%d  %s is computed from its own previous value" % ("src/dataset_processor.py", n.lineno, attr),
                                      "required": "values stored in the shared options object do not depend on what an earlier experiment stored"})
+                    elif sticky:
+                        viol.append({"obligation": "C10.frame.args.%s.%s" % (m.name, attr.split(".")[-1]), "inputs": None,
+                                     "observed": "%s:%d  %s is written only %s - otherwise the value stored while an earlier experiment was processed stays in place"
+                                                 % ("src/dataset_processor.py", n.lineno, attr, sticky),
+                                     "required": "a value stored in the shared options object is decided anew for every experiment (written on every "
+                                                 "path, or under a condition that only reads run-level options)"})
                     else:
                         dis += 1
                         if len(samples) < 6:
@@ -235,6 +244,89 @@ def c10_inventory(tier, rng):
                      "undecided": True})
     return {"obligations": obl, "discharged": dis, "violations": viol, "cases": obl, "exhaustive": True,
             "bound": "all class-/module-level mutable bindings + all writes to the shared options object in DatasetProcessor", "samples": samples}
+
+
+def _assigns(stmts, attr):
+    """attr is assigned on every path through the statement list (if/else with both branches assigning counts; loops and try do not)"""
+    for st in stmts:
+        if isinstance(st, ast.Assign) and any(ast.unparse(t) == attr for t in st.targets):
+            return True
+        if isinstance(st, ast.If) and st.orelse and _assigns(st.body, attr) and _assigns(st.orelse, attr):
+            return True
+        if isinstance(st, ast.With) and _assigns(st.body, attr):
+            return True
+    return False
+
+
+def _run_level_test(test, per_experiment_writes):
+    """the test reads nothing but options that no per-experiment code writes (self.args.x / getattr(self.args, 'x', const)) and constants"""
+    for x in ast.walk(test):
+        if isinstance(x, ast.Name) and x.id not in ("self", "getattr", "True", "False", "None"):
+            return False
+        if isinstance(x, ast.Attribute):
+            txt = ast.unparse(x)
+            if txt == "self.args":
+                continue
+            if not txt.startswith("self.args.") or txt in per_experiment_writes:
+                return False
+        if isinstance(x, ast.Call):
+            if not (isinstance(x.func, ast.Name) and x.func.id == "getattr" and len(x.args) >= 2 and ast.unparse(x.args[0]) == "self.args"
+                    and isinstance(x.args[1], ast.Constant) and "self.args.%s" % x.args[1].value not in per_experiment_writes):
+                return False
+    return True
+
+
+def _conditional_on_experiment(method, assign, attr, per_experiment_writes):
+    """'' when the write happens for every experiment; otherwise a description of the condition under which alone it happens"""
+    def walk(stmts, guards):
+        for st in stmts:
+            if st is assign:
+                return guards
+            for field, kind in (("body", None), ("orelse", None), ("finalbody", None), ("handlers", None)):
+                sub = getattr(st, field, None)
+                if not sub:
+                    continue
+                if field == "handlers":
+                    for h in sub:
+                        r = walk(h.body, guards + [("in an exception handler", st, None)])
+                        if r is not None:
+                            return r
+                    continue
+                if isinstance(st, ast.If):
+                    other = st.orelse if field == "body" else st.body
+                    g = ("when `%s` is %s" % (ast.unparse(st.test), "true" if field == "body" else "false"), st, other)
+                elif isinstance(st, (ast.For, ast.While)):
+                    g = ("inside a loop", st, None)
+                elif isinstance(st, ast.Try):
+                    g = ("inside try", st, None) if field == "body" else ("after try", st, None)
+                else:
+                    g = None
+                r = walk(sub, guards + ([g] if g else []))
+                if r is not None:
+                    return r
+        return None
+    guards = walk(method.body, [])
+    if guards is None:
+        return ""
+    for text, st, other in guards:
+        if isinstance(st, ast.If):
+            if other and _assigns(other, attr):
+                continue
+            if _run_level_test(st.test, per_experiment_writes):
+                continue
+        elif isinstance(st, ast.Try) and text == "inside try":
+            continue
+        if _assigns(method.body[:method.body.index(_top(method, st))], attr):
+            continue
+        return text
+    return ""
+
+
+def _top(method, node):
+    for st in method.body:
+        if any(x is node for x in ast.walk(st)):
+            return st
+    return method.body[-1]
 
 
 def _prepare_bams(d):
